@@ -2,6 +2,7 @@
 //! that every run proves the rules can still see what they forbid.
 #![allow(dead_code, unused)]
 pub mod c02;
+pub mod c07;
 pub mod c08;
 pub mod c15;
 pub mod c16;
